@@ -241,7 +241,7 @@ def run(ctx):
 def grid_cases(ctx):
     from core import grid as G
     from props.c11 import share_version
-    n = ctx.n(10, 80)
+    n = ctx.n(12, 80)
     for i in range(n):
         r = ctx.rng("grid", i)
         seed = r.getrandbits(30)
@@ -259,6 +259,33 @@ def grid_cases(ctx):
         action = r.choice(["error", "error", "error_after"]) if i >= len(FORCED) else "error"
         plan = [{"server": s, "method": "slot_testv_and_readv_and_writev", "nth": 0, "count": None, "action": action} for s in badservers]
         case = {"seed": seed, "servers": S, "k": k, "N": N, "format": fmt, "phase": phase, "bad_servers": badservers, "action": action}
+        if i in (len(FORCED), len(FORCED) + 1):
+            # a share-holding server fails the survey's reads but accepts writes: its share is unknown to the publisher, which
+            # places that share number afresh; if that lands on a share that exists, the publish has met a version it did not
+            # expect and must not report success after replacing it
+            from props.c12 import watch_server_writes, unguarded_overwrites
+            fmt2 = "sdmf" if i == len(FORCED) else "mdmf"
+            with G.Grid(num_clients=1, num_servers=10, k=3, n=10, happy=1, seed=seed, timeout=240) as g:
+                node = g.run(g.create_mutable(b"old contents", version=fmt2))
+                holders = sorted(set(sh.server for sh in g.find_shares(node.get_uri())))
+                blind = r.choice(holders)
+                g.set_faults([{"server": blind, "method": "slot_readv", "nth": 0, "count": 2, "action": "error"}])
+                wlog = []
+                restore = watch_server_writes(wlog)
+                try:
+                    out = g.run(g.mutable_overwrite(node, b"new contents blind"), outcome=True)
+                finally:
+                    restore()
+                    g.set_faults([])
+                bcase = {"seed": seed, "servers": 10, "k": 3, "N": 10, "format": fmt2, "phase": "update", "server_failing_survey_reads": blind}
+                ctx.case((seed, "blind", fmt2), kind="grid:blind-server:%s" % (out.status if out.status != "error" else out.error))
+                bad = unguarded_overwrites(wlog)
+                if out.status == "ok" and bad:
+                    ctx.oracle_fail("grid-publish-success-after-replacing-unseen-share", "publish reported success although it replaced a share it had "
+                                    "never seen (server %d failed the survey's reads): %r" % (blind, bad[0]), case=bcase)
+                else:
+                    ctx.trace(1)
+            continue
         with G.Grid(num_clients=1, num_servers=S, k=k, n=N, happy=1, seed=seed, timeout=240) as g:
             node = None
             if phase == "update":
